@@ -18,7 +18,7 @@ from vcheck.oracle import bits, model as mdl, packets, reader
 PROPERTY = "C17"
 LEVEL = "exploration"
 BUDGET_S = {"quick": 55, "thorough": 800}
-FLOOR = {"quick": 1500, "thorough": 15000}
+FLOOR = {"quick": 1000, "thorough": 15000}
 MUST_REACH = ("steps_judged", "fixpoints_judged", "exact_predictions", "path_collisions_checked", "sequences_run")
 RULE = ("7 seed ACLs (flat IOS, IOS grouped by remark prefix, grouped with port_nr != protocol_nr, NX-OS, with address-group members, with non-contiguous masks and "
         "version-only names, numbered with duplicates) x operation sequences over an alphabet of 18 public operations "
